@@ -159,6 +159,8 @@ def units(tier):
     from props.common import wrap as _wrap
     _wrap(us, "C09.print_all.state_reset_independent_of_output_switches", PA.unit_print_all)
     _wrap(us, "C09.lines.refreshed_also_when_the_run_is_stopped", PA.unit_lines_on_stop_path)
+    from props import c10_more as _MO
+    _wrap(us, "C09.dump_ostream.only_the_request_is_consumed", _MO.unit_dump_ostream_frame, "C09")
     from props import saverestore as SR
     _wrap(us, "C09.switches.saved_and_restored_into_themselves", SR.unit_save_restore, "C09.switches.saved_and_restored_into_themselves", ["src/IPhreeqc.cpp"])
     return us
